@@ -132,6 +132,11 @@ def check_constructor(mir_text, src, label, entry, oid, file_backed):
             continue
         got = dict(zip(mem_names, mem.f))
         uni = is_unify_path and not is_plain_path
+        # construction is refused when the mapping cannot hold the prefix: an accepting path implies length >= prefix
+        prefix = f["dofs"] if uni else f["res64"] + 1
+        okp, _ = prove(ex, e.guard, acc, z3.UGE(L, prefix))
+        if not okp:
+            viol.append({"why": "an arena can be constructed although the mapping is shorter than the prefix (reserved bytes, identification bytes, header): data_offset() > capacity()"})
         expect = {
             "cap": z3.Extract(31, 0, L),
             "reserved": f["res64"],
